@@ -12,6 +12,7 @@ import struct
 
 from .. import framework as fw
 from . import c06
+from .. import loader_source
 
 U64 = (1 << 64) - 1
 WB = {8: 1, 16: 2, 32: 4, 64: 8}
@@ -255,7 +256,10 @@ def judge10(x, o, bases):
 
 
 def run(ctx):
-    fw.static_proofs(ctx, ['Properties/C10.v'])
+    # T-gen for the loading stage of Model/Fjm.v: Reader._init_memory / _validate_segments are re-translated from the current
+    # source into the IR of Model/PyIR.v and proved equal to the hand model (Tie/Loader_tie.v, Properties/C10_source.v)
+    src_props, src_targets = loader_source.prepare(ctx)
+    fw.static_proofs(ctx, ['Properties/C10.v'] + src_props, extra_targets=src_targets)
     pr = c06.probe_tree(ctx)
     c06.tie_constants(ctx, pr)
     so = fw.build_fjcore(ctx)
@@ -294,6 +298,9 @@ def run(ctx):
     for x, o in [(x, o) for x, o in zip(inputs, obs) if x['kind'] in ('prefix', 'field', 'crafted-table')][:4]:
         ctx.sample({'kind': x['kind'], 'file_hex': x['data'].hex()[:400], 'reader_class': o['read']['cls'], 'run_class': o['run'],
                     'message': o['read'].get('msg')})
+    # the reader model with the regenerated stage (PyIR.exec in Coq) against the same observations
+    loader_source.compare(ctx, header, [(t, o['read']['cls'] == 0 or o['read'].get('msg', '').startswith('Bad .fjm file'))
+                                        for t, o in zip(terms, obs)])
     codes = c06.eval_codes(ctx, 'c10', header, terms, 'code10', shard=max(60, len(terms) // (fw.NCPU * 3) + 1))
     for k, code in enumerate(codes):
         if code is None:
